@@ -26,6 +26,7 @@ struct access {
     static unsigned flags(const upa::url& u) { return u.flags_; }
     static std::size_t seg(const upa::url& u) { return u.path_segment_count_; }
     static const void* scheme(const upa::url& u) { return u.scheme_inf_; }
+    static int scheme_index(const upa::url& u) { return u.scheme_inf_ ? static_cast<int>(u.scheme_inf_ - upa::url::kSchemes) : -1; }
     static bool has_params(const upa::url& u) { return static_cast<bool>(u.search_params_ptr_); }
     static const upa::url_search_params& params(const upa::url& u) { return *u.search_params_ptr_; }
     static bool is_sorted(const upa::url_search_params& p) { return p.is_sorted_; }
@@ -186,6 +187,53 @@ int main(int argc, char** argv) {
         ops.push_back({ "can_parse(" + inp.substr(0, 24) + ")", false, both("a:b", "a:b", false, false), [=](upa::url&, upa::url&) { (void)upa::url::can_parse(inp); (void)upa::url::can_parse(inp, "view-source-long-scheme://h/"); } });
     ops.push_back({ "can_parse", false, both("a:b", "a:b", false, false), [=](upa::url&, upa::url&) { (void)upa::url::can_parse("http://" + big + ".b\xC3\xBC.de/", "http://h/"); } });
     ops.push_back({ "standalone params", false, both("a:b", "a:b", false, false), [=](upa::url&, upa::url&) { upa::url_search_params p("b=2&a=1&" + big + "=3"); p.append("k", big); p.sort(); upa::url_search_params q(p); q = p; (void)q.to_string(); (void)p.get_all("a"); } });
+
+    // ---- single setter calls whose post-failure state is replayed on the exception-aware operational model
+    // (Impl/SetRepExc.lean `failStates`): the raw representation after EVERY injected failure is printed
+    struct SetCase { std::string url, setter, value; };
+    std::vector<SetCase> set_cases;
+    {
+        const std::vector<std::string> surls = { "http://example.org/", "https://u:p@h:81/a/b?q#f", "foo:/p", "foo:/.//p?q", "foo://h", "foo://h#f", "file:///C:/x", "non-spec:opaque  ?q", "http://h/?a=1#frag" };
+        const std::string l40(40, 'v'), l64(64, 'w');
+        const std::vector<std::pair<std::string, std::string>> calls = {
+            { "username", l64 }, { "password", l40 }, { "host", l40 + ".example" }, { "host", "h:8080" }, { "hostname", "" }, { "port", "12345" }, { "port", "" },
+            { "pathname", "//" + l40 }, { "pathname", "/" + l40 + "/../" + l40 }, { "search", l64 }, { "search", "" }, { "hash", l64 }, { "hash", "" }, { "protocol", "wss" }, { "protocol", "foo-bar-baz-" + l40 } };
+        for (const auto& u : surls) for (const auto& c : calls) set_cases.push_back({ u, c.first, c.second });
+        if (!level) { std::vector<SetCase> q; for (std::size_t i = 0; i < set_cases.size(); i += 2) q.push_back(set_cases[i]); set_cases.swap(q); }
+    }
+    auto raw_state = [](const upa::url& u) {
+        static const char* d = "0123456789abcdef";
+        std::string s;
+        for (unsigned char c : access::norm(u)) { s += d[c >> 4]; s += d[c & 15]; }
+        if (s.empty()) s = "-";
+        s += " ";
+        for (int i = 0; i < upa::url::PART_COUNT; ++i) { if (i) s += ','; s += std::to_string(access::part_end(u, i)); }
+        s += " " + std::to_string(access::flags(u)) + " " + std::to_string(access::seg(u)) + " " + std::to_string(access::scheme_index(u));
+        return s;
+    };
+    auto units_of = [](const std::string& v) { std::string r; static const char* d = "0123456789abcdef"; for (unsigned char c : v) { if (!r.empty()) r += ','; if (c >> 4) r += d[c >> 4]; r += d[c & 15]; } return r.empty() ? std::string("-") : r; };
+    long fail_states = 0;
+    for (const auto& sc : set_cases) {
+        for (long n = 0; n < 400; ++n) {
+            upa::url* x = new upa::url();
+            x->parse(sc.url, nullptr);
+            const std::string before = raw_state(*x);
+            bool threw = false;
+            {
+                Window w(n);
+                try {
+                    if (sc.setter == "username") x->username(sc.value); else if (sc.setter == "password") x->password(sc.value); else if (sc.setter == "host") x->host(sc.value);
+                    else if (sc.setter == "hostname") x->hostname(sc.value); else if (sc.setter == "port") x->port(sc.value); else if (sc.setter == "pathname") x->pathname(sc.value);
+                    else if (sc.setter == "search") x->search(sc.value); else if (sc.setter == "hash") x->hash(sc.value); else x->protocol(sc.value);
+                } catch (const std::bad_alloc&) { threw = true; } catch (const std::length_error&) { threw = true; }
+            }
+            const bool fired = g_fired;
+            if (threw) { ++fail_states; std::cout << "FAILSTATE set " << sc.setter << " 8 " << units_of(sc.value) << " " << n << " | " << before << " | " << raw_state(*x) << "\n"; }
+            delete x;
+            if (!fired) break;
+        }
+    }
+    std::cout << "FAILSTATES " << fail_states << "\n";
 
     long violations = 0, points = 0;
     for (std::size_t oi = 0; oi < ops.size(); ++oi) {
